@@ -14,6 +14,7 @@ import os
 import posixpath
 import re
 import shutil
+import traceback
 
 from framework import fresh_import
 from indep import linkcrawl
@@ -50,7 +51,7 @@ CTLS = 'bcgstuw'
 REGS = ('A', 'B', 'C', 'HL', 'DE', 'BC')
 ANCHOR_FORMATS = ('{address}', '{address:04x}', '{address:04X}', 'a{address}', '{address:05d}', 'L{address:x}')
 ADDRESS_FORMATS = ('', '${address:04X}', '{address:04x}h')
-DIRS = ('a', 'b', 'asm', 'x1', 'deep', 'maps', 'images')
+DIRS = ('a', 'b', 'asm', 'x1', 'deep', 'maps', 'images', 'Img', 'JS')       # case matters on the target file system
 
 
 class GInstr:
@@ -451,9 +452,10 @@ class ProjectGen:
                         # page's own table of contents links to it)
                         late_sections.append(('{}:Untitled {} ({})'.format(prefix, prefix, k), 'box'))
                         continue
-                    a = '{}{}'.format(prefix.lower(), k)
+                    # ids are case-sensitive; an anchor must not start with a capital ('#Bug0' would read as macro #B)
+                    a = rng.choice(('{0}{2}', '{0}{2}', 'my{1}No{2}', '{0}_{2}X')).format(prefix.lower(), prefix, k)
                     anchors.append(a)
-                    late_sections.append(('{}:{}:Title {} {}'.format(prefix, a, prefix, k), 'box'))
+                    late_sections.append(('{}:{}:Title {} {}{}'.format(prefix, a, prefix, k, rng.choice(('', '', ': part 2', ' (a:b)'))), 'box'))
                 self.link_targets.append((pid, anchors))
                 if rng.random() < 0.3:
                     paths[pid] = rpath(stem=pid.lower() + '.html')
@@ -472,8 +474,9 @@ class ProjectGen:
             if rng.random() < 0.3:
                 notes_type = rng.choice(('ListItems', 'BulletPoints'))
                 self.list_pages.add('Notes')
-            self.link_targets.append(('Notes', ['n1', 'n2']))
-            for a in ('n1', 'n2'):
+            note_ids = rng.choice((('n1', 'n2'), ('n1X', 'noteB')))
+            self.link_targets.append(('Notes', list(note_ids)))
+            for a in note_ids:
                 late_sections.append(('Note:{}:Note {}'.format(a, a), 'list' if notes_type else 'box'))
             if rng.random() < 0.5:
                 paths['Notes'] = rpath(stem='notes.html')
@@ -526,16 +529,18 @@ class ProjectGen:
             else:
                 ref.append((name, ['Intro text', '', 'Item ' + self.r_macro(main, dummy), '  Subitem ' + self.link_macro()]))
         if rng.random() < 0.25:
-            ref.append(('Page:Existing', ['Content=ext/existing.html']))
-            ref.append(('Resources', ['existing.html=ext']))
+            ext = rng.choice(('ext', 'ext', 'Ext/Res'))
+            ref.append(('Page:Existing', ['Content={}/existing.html'.format(ext)]))
+            ref.append(('Resources', ['existing.html=' + ext]))
             self.need_files['existing.html'] = '<html><body><span id="top"></span></body></html>\n'
             if rng.random() < 0.5:
                 ref.append(('Index:Reference:Reference', ['Existing', 'Bugs', 'Facts', 'Pokes', 'Glossary', 'Changelog']))
         if rng.random() < 0.3:
             game['Logo'] = rng.choice(('#SCR1,0,0,4,1(/logo)', '#UDG15616(logo)', '#UDG15616({ImagePath}/logo)'))
         elif rng.random() < 0.15:
-            game['LogoImage'] = 'pics/logo.png'
-            ref.append(('Resources', ['logo.png=pics']))
+            pics = rng.choice(('pics', 'Pics'))
+            game['LogoImage'] = pics + '/logo.png'
+            ref.append(('Resources', ['logo.png=' + pics]))
             self.need_files['logo.png'] = 'PNG'
         if rng.random() < 0.2:
             game['JavaScript'] = rng.choice(('global.js', 'global.js;g2.js'))
@@ -585,8 +590,15 @@ class ProjectGen:
             argv.append('-u')
         if rng.random() < 0.2:
             argv.append('-o')
-        if rng.random() < 0.1:
-            argv += ['-T', 'dark']
+        if rng.random() < 0.12:
+            # themes: skoolkit-<theme>.css ships with SkoolKit; <theme>.css and <sheet>-<theme>.css exist only sometimes
+            themes = rng.choice((['dark'], ['dark'], ['dark', 'wide'], ['green']))
+            for t in themes:
+                argv += ['-T', t]
+            if rng.random() < 0.5:
+                files[themes[0] + '.css'] = '/* theme */\n'
+            if 'mine.css' in files and rng.random() < 0.6:
+                files['mine-{}.css'.format(themes[-1])] = '/* themed */\n'
         if rng.random() < 0.1 and 'StyleSheetPath' not in paths:
             argv += ['-j', 'all.css']
         if rng.random() < 0.15:
@@ -751,16 +763,20 @@ def check_tree(mods, res):
     # every linkable instruction has its anchor, in exactly the page of its entry, shared with nobody
     for cid, w in res.writers.items():
         by_page = {}
-        for entry in w.memory_map:
-            if w.asm_single_page:
-                page = rel_of(w.paths[w._get_asm_page_id(w.code_id)])
-            else:
-                page = rel_of(mods.skoolhtml.join(w.code_path, w.asm_fname(entry.address)))
-            for k, ins in enumerate(entry.instructions):
-                if ins.address is None:
-                    continue
-                expected = 1 + int(bool(ins.mid_block_comment)) + int(w.asm_single_page and k == 0)
-                by_page.setdefault(page, []).append((ins.address, w.asm_anchor(ins.address), expected))
+        try:
+            for entry in w.memory_map:
+                if w.asm_single_page:
+                    page = rel_of(w.paths[w._get_asm_page_id(w.code_id)])
+                else:
+                    page = rel_of(mods.skoolhtml.join(w.code_path, w.asm_fname(entry.address)))
+                for k, ins in enumerate(entry.instructions):
+                    if ins.address is None:
+                        continue
+                    expected = 1 + int(bool(ins.mid_block_comment)) + int(w.asm_single_page and k == 0)
+                    by_page.setdefault(page, []).append((ins.address, w.asm_anchor(ins.address), expected))
+        except Exception as e:
+            fails.append(('anchor-naming-raises-' + type(e).__name__, 'asm_fname / asm_anchor / paths of the {} writer raise {}: {}'.format(cid, type(e).__name__, e)))
+            continue
         for page, items in by_page.items():
             if page not in tree.files:
                 continue              # (a run that did not write this disassembly)
@@ -776,6 +792,42 @@ def check_tree(mods, res):
                 if owners.setdefault(anchor, addr) != addr:
                     fails.append(('anchor-shared', 'id="{}" stands for {} and {} in {}'.format(anchor, owners[anchor], addr, page)))
     return fails, stats
+
+
+def stopped_tree_fails(mods, res):
+    """skool2html stopped with an error on generated (legitimate) input: dead links in the tree written so far."""
+    if not res.errors or not os.path.isdir(res.out):
+        return []
+    kind, text = res.errors[0]
+    what = text.split(':')[0].split()[0] if kind == 'crash' and text else kind
+    fails, _ = check_tree(mods, res)
+    return [('tool-stopped-{}:{}'.format(what, key), '{} (skool2html stopped: {})'.format(desc, text[:120])) for key, desc in fails]
+
+
+def check_subset_tree(mods, res):
+    """A run that writes only a strict subset of the file kinds (-w): hyperlinks to pages of the kinds left
+    out are dead by design, but (a) every asset reference (style sheet, script, image, audio) of every page
+    written must resolve, (b) the index page only lists files that exist (write_index asks the file system),
+    (c) a hyperlink to a file that was written must name an id that exists there."""
+    fails = []
+    include_of = {}
+    for _run, _cid, include, fname in res.writes:
+        include_of[rel_of(fname)] = include
+    tree = linkcrawl.Tree(res.out, html=include_of)
+    main = res.writers.get('main')
+    index = rel_of(main.paths['GameIndex']) if main else None
+    n = 0
+    for page, tag, attr, url, ctx, problem in tree.crawl():
+        n += 1
+        if not problem or problem == 'external':
+            continue
+        if tag != 'a' or page == index or problem == 'missing-fragment':
+            fails.append(('subset:' + link_key(problem, include_of.get(page), ctx, tag, url),
+                          '{}: <{} {}="{}"> in {} ({})'.format(problem, tag, attr, url, page, ctx or '-')))
+    return fails, n
+
+
+W_SUBSETS = ('i', 'di', 'mi', 'Pi', 'oi', 'dmi', 'dPi', 'moi', 'dmPi', 'dmoi', 'mPoi', 'd', 'o', 'P', 'dm')
 
 
 # --------------------------------------------------------------------------------------------
@@ -795,6 +847,8 @@ def path_ops(chk, mods):
             impl.append('ok =' + f())
         except ValueError:
             impl.append('err noPath')
+        except Exception as e:
+            impl.append('err ' + type(e).__name__)
         chk.case(tag, (op,) if nontrivial else None)
 
     for n in range(1, chk.scale(5, 7)):
@@ -929,6 +983,8 @@ def canon_exc(mods, f):
         return 'err keyError'
     except ValueError:
         return 'err relErr'
+    except Exception as e:           # any other exception of the real code: a difference from the model
+        return 'err ' + type(e).__name__
 
 
 def site_queries(chk, mods, res, order, addrs, legit=True):
@@ -1173,18 +1229,21 @@ def explore(chk, mods):
             root = os.path.join(chk.scratch, 'odd{}'.format(k))
             res = run_project(mods, proj, root, ['o', 'dmPi'])
             chk.case('site-odd', ('odd', k))
-            sl = site_lines(mods, res, base)
-            if sl is None:
-                chk.breaks.append({'kind': 'correspondence', 'name': 'odd project {}'.format(k),
-                                   'detail': 'no writers captured: {}'.format(res.errors)})
-            else:
-                lines, order, addrs = sl
-                ops, impl, used = site_queries(chk, mods, res, order, addrs, legit=False)
-                w = res.writers['main']
-                all_ops.extend(lines + ['fmt {} {} {}'.format(a, w.asm_fname(a), w.asm_anchor(a)) for a in sorted(used)])
-                all_impl.extend(['ok'] * (len(lines) + len(used)))
-                all_ops.extend(ops)
-                all_impl.extend(impl)
+            try:
+                sl = site_lines(mods, res, base)
+                if sl is None:
+                    chk.breaks.append({'kind': 'correspondence', 'name': 'odd project {}'.format(k),
+                                       'detail': 'no writers captured: {}'.format(res.errors)})
+                else:
+                    lines, order, addrs = sl
+                    ops, impl, used = site_queries(chk, mods, res, order, addrs, legit=False)
+                    w = res.writers['main']
+                    fmts = ['fmt {} {} {}'.format(a, w.asm_fname(a), w.asm_anchor(a)) for a in sorted(used)]
+                    all_ops.extend(lines + fmts + ops)
+                    all_impl.extend(['ok'] * (len(lines) + len(fmts)) + impl)
+            except Exception as e:
+                chk.breaks.append({'kind': 'correspondence', 'name': 'odd project {}: the real HtmlWriter raised {}'.format(k, type(e).__name__),
+                                   'detail': traceback.format_exc()[-1500:]})
             shutil.rmtree(root, ignore_errors=True)
         fixed = list(fixed_projects())
         for n in range(-len(fixed), n_proj):
@@ -1201,11 +1260,15 @@ def explore(chk, mods):
                 kinds = {k for k, _ in res.errors}
                 if 'crash' in kinds:
                     crashed += 1
-                    chk.note('tool crashed on generated input (not a link defect): ' + res.errors[0][1][:200])
+                    chk.note('tool crashed on generated input: ' + res.errors[0][1][:200])
                 else:
                     rejected += 1
                     chk.note('tool rejected generated input: ' + res.errors[0][1][:200])
                 chk.case(tag + '-error', None)
+                # the tool stopped part-way: the tree it has written so far is what the property speaks about
+                for key, desc in stopped_tree_fails(mods, res):
+                    chk.violation(key, desc, {'kind': 'e2e', 'files': proj['files'], 'skool': proj['skool'],
+                                              'argv': proj['argv'], 'runs': runs, 'key': key})
                 shutil.rmtree(root, ignore_errors=True)
                 continue
             fails, stats = check_tree(mods, res)
@@ -1216,25 +1279,40 @@ def explore(chk, mods):
             for key, desc in fails:
                 chk.violation(key, desc, {'kind': 'e2e', 'files': proj['files'], 'skool': proj['skool'],
                                           'argv': proj['argv'], 'runs': runs, 'key': key})
+            # the same project written with a strict subset of -w into a fresh directory
+            if n >= 0 and n % 4 == 1:
+                sub = W_SUBSETS[(n // 4) % len(W_SUBSETS)]
+                sroot = os.path.join(chk.scratch, 's{}'.format(n % 1000003))
+                sres = run_project(mods, proj, sroot, [sub])
+                if not sres.errors:
+                    sfails, nrefs = check_subset_tree(mods, sres)
+                    chk.case('site-subset-w', ('subset', n, sub), {'argv': proj['argv'], 'runs': [sub], 'refs': nrefs})
+                    for key, desc in sfails:
+                        chk.violation(key, desc + ' [-w {}]'.format(sub), {'kind': 'e2e', 'files': proj['files'], 'skool': proj['skool'],
+                                                                          'argv': proj['argv'], 'runs': [sub], 'key': key, 'subset': True})
+                shutil.rmtree(sroot, ignore_errors=True)
             # site correspondence on the same run
             if n < 0 or n % chk.scale(1, 3) == 0:
-                sl = site_lines(mods, res, base)
-                if sl:
-                    lines, order, addrs = sl
-                    all_ops.extend(lines)
-                    all_impl.extend(['ok'] * len(lines))
-                    ops, impl, used = site_queries(chk, mods, res, order, addrs)
-                    w = res.writers['main']
-                    for a in sorted(used):
-                        all_ops.append('fmt {} {} {}'.format(a, w.asm_fname(a), w.asm_anchor(a)))
-                        all_impl.append('ok')
-                    for k, (o, i) in enumerate(zip(ops, impl)):
-                        if o.startswith('q pages'):
-                            impl[k] = real_pages(res, i)
-                        elif o.startswith('q links'):
-                            impl[k] = real_links(res, i)
-                    all_ops.extend(ops)
-                    all_impl.extend(impl)
+                try:
+                    sl = site_lines(mods, res, base)
+                    if sl:
+                        lines, order, addrs = sl
+                        ops, impl, used = site_queries(chk, mods, res, order, addrs)
+                        w = res.writers['main']
+                        fmts = ['fmt {} {} {}'.format(a, w.asm_fname(a), w.asm_anchor(a)) for a in sorted(used)]
+                        for k, (o, i) in enumerate(zip(ops, impl)):
+                            if o.startswith('q pages'):
+                                impl[k] = real_pages(res, i)
+                            elif o.startswith('q links'):
+                                impl[k] = real_links(res, i)
+                        all_ops.extend(lines + fmts + ops)
+                        all_impl.extend(['ok'] * (len(lines) + len(fmts)) + impl)
+                except Exception as e:
+                    # the real writer raised where the site model is queried: a difference from the model, not a
+                    # failure of the check (the crawl above is the search for a concrete input)
+                    if len(chk.breaks) < 5:
+                        chk.breaks.append({'kind': 'correspondence', 'name': 'site queries: the real HtmlWriter raised ' + type(e).__name__,
+                                           'detail': traceback.format_exc()[-1500:]})
             shutil.rmtree(root, ignore_errors=True)
     chk.extra['e2e_totals'] = dict(tot, projects=n_proj, rejected=rejected, crashed=crashed)
     chk.extra['not_generated'] = list(NOT_GENERATED)
@@ -1250,7 +1328,9 @@ def run(chk):
                 'and audio macros, #LIST/#TABLE, box and list pages, custom pages/maps, [Paths] overrides incl. "./x", "x//y", "x/", '
                 'AddressAnchor, CodeFiles, LinkOperands, LinkInternalOperands[MinDistance], EntryGroups, Logo, JavaScript, extra '
                 'style sheets, [Resources]) x options (-1 -a -C -D -H -l -u -o -T -j -c, random ordered partitions of -w into 1..3 '
-                'runs); 3 malformed sites (duplicate addresses, untruthful/unknown/shadowed @remote) for the model tie only; '
+                'runs; every fourth project also with one strict subset of -w into a fresh directory: asset references, the index '
+                'page and fragments of links to files that exist must still resolve); mixed-case directory names and box-page '
+                'anchors; 3 malformed sites (duplicate addresses, untruthful/unknown/shadowed @remote) for the model tie only; '
                 'non-trivial = distinct (argv, -w partition, project) / distinct query shape; the first six generated projects '
                 'sweep single-page x number of other disassemblies')
     chk.trusted += ['hand models lean/SkoolVerif/Model/PathAlg.lean and Model/HtmlSite.lean tied by correspondence (harness/props/c16.py)',
@@ -1294,7 +1374,9 @@ def replay(chk, data):
         res = run_project(mods, data, os.path.join(chk.scratch, 'replay'), data['runs'])
         if res.errors:
             print('tool errors:', res.errors)
-        fails, _ = check_tree(mods, res)
+            fails = stopped_tree_fails(mods, res)
+        else:
+            fails, _ = check_subset_tree(mods, res) if data.get('subset') else check_tree(mods, res)
     for key, desc in fails:
         print(key, desc)
     return any(key == data.get('key') for key, _ in fails) or (bool(fails) and 'key' not in data)
